@@ -56,6 +56,21 @@ static std::string run(const std::string& v, const std::vector<std::string>& a) 
         if (v == "ctor.string") { Rational r(s.c_str()); return str(r); }
         Rational r(7, 5); std::istringstream in(s); in >> r; return str(r);
     }
+    if (v == "q.init.float") {
+        uint32_t bits = (uint32_t) strtoul(a[0].c_str(), NULL, 16); float f; memcpy(&f, &bits, 4);
+        Rational r(7, 5); Q.init(r, f); return str(r);
+    }
+    if (v == "q.init.cstr") {
+        std::string s = a[0]; for (size_t i = 0; i < s.size(); ++i) if (s[i] == '_') s[i] = ' ';
+        const char* cs = s.c_str(); Rational r(7, 5); Q.init(r, cs); return str(r);
+    }
+    if (v == "consts") {
+        return str(Rational::zero) + " " + str(Rational::one) + " " + str(Rational::mOne) + " " + str(Q.zero) + " " + str(Q.one) + " " + str(Q.mOne);
+    }
+    if (v == "q.init0") { Rational r(7, 5); Q.init(r); return str(r); }   // init(a) leaves a unchanged
+    if (v == "q.init.int32") { Rational r(7, 5); Q.init(r, (int32_t) toi64(a[0])); return str(r); }
+    if (v == "q.init.uint32") { Rational r(7, 5); Q.init(r, (uint32_t) tou64(a[0])); return str(r); }
+    if (v == "q.init.uint64") { Rational r(7, 5); Q.init(r, (uint64_t) tou64(a[0])); return str(r); }
     if (v == "q.init.nd") { Rational r(7, 5); Q.init(r, toI(a[0]), toI(a[1])); return str(r); }
     if (v == "q.init.Integer") { Rational r(7, 5); Q.init(r, toI(a[0])); return str(r); }
     if (v == "q.init.int64") { Rational r(7, 5); Q.init(r, (int64_t) toi64(a[0])); return str(r); }
@@ -109,6 +124,11 @@ static std::string run(const std::string& v, const std::vector<std::string>& a) 
     if (v == "q.subin.alias") { Q.subin(x, x); return str(x); }
     if (v == "q.mulin.alias") { Q.mulin(x, x); return str(x); }
     if (v == "q.divin.alias") { Q.divin(x, x); return str(x); }
+    // three-address forms with r = a = b
+    if (v == "q.mul.alias_rab") { Q.mul(x, x, x); return str(x); }
+    if (v == "q.add.alias_rab") { Q.add(x, x, x); return str(x); }
+    if (v == "q.sub.alias_rab") { Q.sub(x, x, x); return str(x); }
+    if (v == "q.div.alias_rab") { Q.div(x, x, x); return str(x); }
     // ------------------------------------------------ second operand y = a2/a3
     Rational y = mk(a[2], a[3]);
     if (v == "op+") { return str(x + y); }
